@@ -486,7 +486,7 @@ PRED_FREE = ('SequenceTokenCount', 'SequenceCount', 'SequenceLength', 'SequenceT
 
 # sub-spaces re-executed under other interpreter configurations (mc.core.CONFIGS): {configuration: {sub-space: stride}}
 # quick tier: every stride-th planned case, thorough tier: all planned cases
-CONFIG_PASSES = {'x64': {'grid': 12, 'identities': 1}}
+CONFIG_PASSES = {'x64': {'grid': 12, 'identities': 1}, 'x64_late': {'grid': 48}}
 
 
 def plan(ctx):
